@@ -7,6 +7,8 @@ CORS_CFG = """SPECIFICATION Spec
 CONSTANTS
   CBug = "%(bug)s"
   NameOrder <- NameOrderDef
+  AcrhOK <- AcrhOKElems
+  AcrhEcho <- AcrhEchoElems
   CheckPairs = %(pairs)s
 INVARIANTS %(invs)s
 CHECK_DEADLOCK FALSE
